@@ -33,6 +33,10 @@ func runC19(c *Ctx) {
 	// every security alternative the description declares — the anonymous one included — gets its group of
 	// authenticators on the route (a validated API serves what its description allows)
 	ruleRouteAuthenticatorsBuilt(c, "R19.2")
+	// the request-time consumer lookup uses the parsed (lower-cased, parameter-free) media type: the form the tables the
+	// API filled at registration are keyed by
+	ruleContentTypeAccessorParses(c, "R19.2")
+	ruleUntypedGateForEveryBody(c, "R19.2")
 	// the routing tables are built when the HANDLER is built (NewRouter), i.e. after the registrations Validate() judged:
 	// nothing builds them earlier (a context created before the last RegisterConsumer/Producer/Auth would serve with
 	// tables that lack them)
@@ -118,6 +122,26 @@ func runC19(c *Ctx) {
 		}
 	}
 	c.obRF("R19.1", val, "five-comparisons", len(vcs) == 5, "validate compares five categories", fmt.Sprintf("%d verify calls", len(vcs)))
+	// the lists compared are the registrations and the requirements AS THEY ARE: validate collects them (append) and
+	// never rewrites an entry before the comparison (a name "adjusted" to its required spelling would pass validation
+	// while the serving tables still hold the registered spelling)
+	for _, in := range instrs(val) {
+		st, ok := in.(*ssa.Store)
+		if !ok || st.Parent() != val {
+			continue
+		}
+		ia, isIA := st.Addr.(*ssa.IndexAddr)
+		if !isIA || typeStr(ia.X.Type()) != "[]string" {
+			continue
+		}
+		for _, vc := range vcs {
+			for _, a := range vc.Common().Args {
+				if typeStr(a.Type()) == "[]string" && (a == ia.X || sameOrigins(a, ia.X)) {
+					c.obI("R19.1", st, "compared-lists-not-edited", false, "validate never overwrites an entry of a list it hands to the comparison", "an entry of a compared list is rewritten before the comparison")
+				}
+			}
+		}
+	}
 	byName := map[string]*ssa.Call{}
 	for _, vc := range vcs {
 		_, a := callArgs(vc.Common())
@@ -431,13 +455,7 @@ func runC19(c *Ctx) {
 			c.obI("R19.2", r, "delegates", ok, "the routable API delegates to the registry", "")
 		}
 	}
-	hf := p.Fn("(*rt/middleware.routableUntypedAPI).HandlerFor")
-	for _, in := range instrs(hf) {
-		if lk, ok := in.(*ssa.Lookup); ok && vFieldLoad("rt/middleware.routableUntypedAPI", "handlers", nil)(lk.X) {
-			okK, _ := allOrigins(lk.Index, oCallWhere(-1, "strings.ToUpper", func(t *ssa.Call) bool { return t.Call.Args[0] == ssa.Value(paramOf(hf, 0)) }))
-			c.obI("R19.2", lk, "handler-table-upper-cases", okK, "the handler table is read with the upper-cased method", "")
-		}
-	}
+	ruleHandlerTableRead(c, "R19.2")
 	ruleAlternativeStorageFresh(c, "R19.2")
 	// the handler table served from is keyed exactly like the registry it is built from: by the verbatim path
 	{
@@ -688,4 +706,31 @@ func ruleRoutableAPIDelegates(c *Ctx, rule string, which ...string) {
 			c.obRF(rule, f, "adapter-keeps-"+m, n >= 1 || len(realReturns(f)) > 0, "the adapter answers "+m, "")
 		}
 	}
+}
+
+// ruleHandlerTableRead: HandlerFor answers with the handler registered for exactly the (method, path) it is asked about:
+// the per-method table is read under the upper-cased method ARGUMENT (never another method's table — the security
+// wrapper around a handler was decided from the operation it was registered for), the per-path table under the path
+// argument. Shared by C19 and C02.
+func ruleHandlerTableRead(c *Ctx, rule string) {
+	p := c.P
+	hf := p.Fn("(*rt/middleware.routableUntypedAPI).HandlerFor")
+	n := 0
+	for _, in := range instrs(hf) {
+		lk, ok := in.(*ssa.Lookup)
+		if !ok {
+			continue
+		}
+		if vFieldLoad("rt/middleware.routableUntypedAPI", "handlers", nil)(lk.X) || vFieldLoadO("rt/middleware.routableUntypedAPI", "handlers")(lk.X) {
+			n++
+			okK, _ := allOrigins(lk.Index, oCallWhere(-1, "strings.ToUpper", func(t *ssa.Call) bool { return t.Call.Args[0] == ssa.Value(paramOf(hf, 0)) }))
+			c.obI(rule, lk, "handler-table-upper-cases", okK, "the handler table is read with the upper-cased method it is asked about (a handler registered for another method is never handed out)", "key "+describe(lk.Index))
+			continue
+		}
+		if typeStr(lk.X.Type()) == "map[string]net/http.Handler" {
+			okP, _ := allOrigins(lk.Index, oIsValue(paramOf(hf, 1)))
+			c.obI(rule, lk, "handler-table-by-asked-path", okP, "the per-method table is read under the path it is asked about", "key "+describe(lk.Index))
+		}
+	}
+	c.obRF(rule, hf, "reads-handler-table", n >= 1, "HandlerFor reads the per-method handler table", fmt.Sprintf("%d", n))
 }
